@@ -23,6 +23,8 @@ PERSISTENT = {
     "import_stack": "balanced push/pop around an import's emission (the pop is not skipped by an error: checked by C06 R6.9)",
     "macro_depth": "balanced increment/decrement around a macro's expansion (the decrement is not skipped by an error: checked by C06 R6.11)",
     "variable_definitions": "deliberately the previous pass's value of every variable definition: only compared with, to decide whether another pass is needed",
+    "known_definitions": "deliberately every definition seen in this or an earlier pass: only asked whether a definition is new, to decide whether another pass is "
+                         "needed (checked separately: R2.1 first-definitions)",
 }
 
 
@@ -140,7 +142,42 @@ def r22(ctx, fx):
         l, r = lib.strip(c["l"]), lib.strip(c["r"])
         return l.get("k") == "field" and r.get("k") == "field" and l["name"] == "data" and r["name"] == "data" and \
             (l.get("ty") or "").endswith("SymbolData")
+    def comparator(c):
+        """a function asked about the two `.data` values instead of `!=`: (node, [the two operands]) or None"""
+        c = lib.strip(c)
+        while c.get("k") == "unary" and c.get("op") == "Not":
+            c = lib.strip(c["a"])
+        if c.get("k") not in ("mcall", "call"):
+            return None
+        ops = [lib.strip(a) for a in ([c["recv"]] if c.get("k") == "mcall" else []) + list(c.get("args") or [])]
+        datas = [o for o in ops if o.get("k") == "field" and o.get("name") == "data" and (o.get("ty") or "").endswith("SymbolData")]
+        return c if len(datas) == 2 else None
     n_ne = 0
+    for n in lib.hwalk(body):
+        if n.get("k") == "if" and comparator(n["cond"]) is not None:
+            c = comparator(n["cond"])
+            n_ne += 1
+            k = "%s|data-differs" % fn.path
+            g = fx.fns.get(c.get("id")) or fx.fns.get((c.get("f") or {}).get("id") if isinstance(c.get("f"), dict) else None)
+            name = c.get("name") or (c.get("path") or "?")
+            ctx.inst(rid, k, sample={"branch": "comparator `%s` over existing.data and symbol.data" % name, "sets_flag": sets_flag(n["then"])})
+            if not sets_flag(n["then"]):
+                ctx.finding(rid, k, "a symbol whose value changed is not marked: no further pass is forced and operands encoded with the old value survive",
+                            "%s:%s" % (fn.file, n.get("ln")))
+            derived = (c.get("path") or "").endswith(("PartialEq::eq", "PartialEq::ne")) or name in ("eq", "ne")
+            if derived:
+                continue
+            kinds_only = g is not None and g.d.get("hir") and any(
+                (x.get("k") == "call" and "discriminant" in repr(lib.hdesc(x.get("f")))) or (x.get("k") == "path" and "discriminant" in (lib.hpath(x) or ""))
+                for x in lib.hwalk(g.hir["body"]))
+            if kinds_only:
+                ctx.finding(rid, "%s|comparator-kinds-only" % fn.path,
+                            "whether a symbol changed is decided by `%s`, which for some pairs of values compares only their kind (mem::discriminant): a value of "
+                            "that kind — a string, say — that changed between passes is not marked, no further pass is forced, and what was assembled with the "
+                            "old value stays in the image" % name, g.where)
+            else:
+                ctx.fail_closed(rid, "whether a symbol changed is decided by a hand-written comparison `%s` and not by `!=` of the values: cannot decide that it "
+                                "tells every changed value apart" % name)
     for n in lib.hwalk(body):
         if n.get("k") == "if" and is_data_ne(n["cond"]):
             n_ne += 1
@@ -306,6 +343,20 @@ def r26(ctx, fx, loop):
     if not (uses and cmp_):
         ctx.finding(rid, k, "a variable never asks for another pass: `.var here = *` behind code that changes size leaves `jmp here` with the address of the pass before",
                     ads.where)
+    k = "add_symbol|first-definitions"
+    ctx.inst(rid, k)
+    # the branch that inserts a symbol that was not in the table sets the new-pass flag (under the test that the definition was not seen before)
+    ok = False
+    for n in lib.hwalk(ads.hir["body"]):
+        if n.get("k") == "match":
+            for a in n["arms"]:
+                if any(True for _ in lib.hir_calls(a["body"], "SymbolTable::insert")) or any(
+                        x.get("k") == "mcall" and x.get("name") == "insert" and "symbols" in repr(lib.hdesc(x["recv"])) for x in lib.hwalk(a["body"])):
+                    if any(x.get("k") == "assign" and lib.hlit(x["r"]) is True and "new_pass" in (lib.hpath(x["l"]) or "") for x in lib.hwalk(a["body"])):
+                        ok = True
+    if not ok:
+        ctx.finding(rid, k, "a symbol that is defined for the first time in a later pass (in a block that an `.if defined(later)` reaches only then) never asks for "
+                    "another pass: what used its name earlier in that pass stays bound to the enclosing scope's symbol of the same name", ads.where)
     k = "%s|at-least-two-passes" % loop.path
     ctx.inst(rid, k)
     ok = False
